@@ -565,6 +565,7 @@ func runC12(r *Run) {
 	}
 	r.checkProgress(P)
 	r.checkNextAgree(P)
+	r.checkCandidateNoTrace(P, "OperationProcessor.applyFirstValidOperation")
 }
 
 // loopHead returns the first block that is the target of a back edge.
